@@ -32,3 +32,23 @@ Example C08_partial_tuple_ignored :
   key_errors [[Some 1; Some 1]; [Some 1; Some 1]; [Some 1; None]]%Z
   = [Missing [Some 1%Z; None]; Dup [1; 1]%Z].
 Proof. vm_compute. repeat split. Qed.
+
+(* key references across levels (keyref on an ancestor of the key's scope element) *)
+Theorem C08_ancestor_keyref : forall tables ts,
+  ancestor_keyref_errors tables ts = [] <->
+  forall v, In v (qualified ts) -> (exists t, In t tables /\ In v t) /\ count_tables v tables = 1.
+Proof. exact ancestor_keyref_spec. Qed.
+Print Assumptions C08_ancestor_keyref.
+
+Theorem C08_propagated_single : forall t v, NoDup t -> (In v (propagated [t]) <-> In v t).
+Proof. exact propagated_single. Qed.
+Print Assumptions C08_propagated_single.
+
+(* the implementation's rule (only the last scope instance is visible) is refuted in both directions:
+   a reference into the first instance is reported dangling, a reference to a conflicting value is accepted *)
+Example C08_last_table_refuted :
+  ancestor_keyref_errors [[[1%Z]]; [[2%Z]]] [[Some 1%Z]] = [] /\
+  last_table_keyref_errors [[[1%Z]]; [[2%Z]]] [[Some 1%Z]] = [Dangling [1%Z]] /\
+  ancestor_keyref_errors [[[1%Z]]; [[1%Z]]] [[Some 1%Z]] = [Dangling [1%Z]] /\
+  last_table_keyref_errors [[[1%Z]]; [[1%Z]]] [[Some 1%Z]] = [].
+Proof. vm_compute. repeat split. Qed.
